@@ -13,21 +13,22 @@ import (
 )
 
 type Obligation struct {
-	Name         string
-	Func         string
-	Tags         []string
-	Hyps         []*Term
-	Goal         *Term
-	Where        string
-	Kind         string // requires, ensures, establish, preserve, assert, bounds, ownership, frame, ...
-	Result       string // unsat (discharged) / sat / unknown / timeout / static-ok / static-fail
-	Solver       string
-	Time         float64
-	Model        string
-	CandModel    string // model of the quantifier-free relaxation (candidate counterexample)
-	Static       bool   // decided syntactically
-	ShortTimeout bool
-	Detail       string
+	Name                      string
+	Func                      string
+	Tags                      []string
+	Hyps                      []*Term
+	Goal                      *Term
+	Where                     string
+	Kind                      string // requires, ensures, establish, preserve, assert, bounds, ownership, frame, ...
+	Result                    string // unsat (discharged) / sat / unknown / timeout / static-ok / static-fail
+	Solver                    string
+	Time                      float64
+	Model                     string
+	CandModel                 string // model of the quantifier-free relaxation (candidate counterexample)
+	Static                    bool   // decided syntactically
+	ShortTimeout              bool
+	smtSliced, smtFull, smtQF string
+	Detail                    string
 }
 
 type flowKind int
@@ -72,7 +73,8 @@ type Engine struct {
 	madeHere     map[string]bool
 	baseNames    map[string]Value
 	selfNames    map[string]Value
-	callRes      map[string][]Value // results of contract calls by callee name (spec: res(Callee_Name, i))
+	callRes      map[string][]Value
+	callArgs     map[string][][]Value // results of contract calls by callee name (spec: res(Callee_Name, i))
 	dynType      map[string]types.Type
 	arrayMode    bool
 	extraStreams []*Term
@@ -905,18 +907,39 @@ func (e *Engine) evalComposite(cl *ast.CompositeLit, st *State) Value {
 		e.dynType[ref.String()] = types.NewPointer(t)
 		base := VTerm{T: ref, Typ: t}
 		given := map[string]Value{}
+		skipped := map[string]bool{}
+		evalField := func(name string, x ast.Expr) {
+			defer func() {
+				if r := recover(); r != nil {
+					if us, ok := r.(unsupported); ok {
+						// a field outside the subset (e.g. [][]int) is left unmodelled; reading it later is out of reach
+						skipped[name] = true
+						e.notes["field "+name+" of "+typeShort(t)+" not modelled: "+us.msg] = true
+						return
+					}
+					panic(r)
+				}
+			}()
+			given[name] = e.eval(x, st)
+		}
 		for i, el := range cl.Elts {
 			if kv, ok := el.(*ast.KeyValueExpr); ok {
-				given[kv.Key.(*ast.Ident).Name] = e.eval(kv.Value, st)
+				evalField(kv.Key.(*ast.Ident).Name, kv.Value)
 			} else {
-				given[u.Field(i).Name()] = e.eval(el, st)
+				evalField(u.Field(i).Name(), el)
 			}
 		}
 		for i := 0; i < u.NumFields(); i++ {
 			f := u.Field(i)
 			v, ok := given[f.Name()]
+			if skipped[f.Name()] {
+				continue
+			}
 			if !ok {
 				if _, isSig := f.Type().Underlying().(*types.Signature); isSig {
+					continue
+				}
+				if !e.typeModelled(f.Type()) {
 					continue
 				}
 				v = e.zeroValue(f.Type())
@@ -947,6 +970,16 @@ func (e *Engine) evalComposite(cl *ast.CompositeLit, st *State) Value {
 	}
 	unsup("composite literal of %s at %s", t, e.src(cl))
 	return nil
+}
+
+func (e *Engine) typeModelled(t types.Type) (ok bool) {
+	defer func() {
+		if r := recover(); r != nil {
+			ok = false
+		}
+	}()
+	e.zeroValue(t)
+	return true
 }
 
 func typeShort(t types.Type) string {
